@@ -1081,9 +1081,22 @@ func (e *Engine) reachableGhosts(fn *ssa.Function) map[string]bool {
 		e.cg = cha.CallGraph(e.prog)
 		e.reachGhost = map[*ssa.Function]map[string]bool{}
 		savedRoot := e.curRoot
-		e.curRoot = nil // scope restrictions (`in`) are ignored here: conservative
+		e.curRoot = nil
 		note := func(f *ssa.Function, kind, key string) {
 			for _, ev := range e.eventsFor(kind, key) {
+				if len(ev.In) > 0 {
+					// a scoped event fires only in the bodies of the functions it names (as roots or inlined):
+					// an instruction of another function never fires it, whoever calls that function
+					ok := false
+					for _, p := range ev.In {
+						if globMatch(p, e.shortName(f)) {
+							ok = true
+						}
+					}
+					if !ok {
+						continue
+					}
+				}
 				for _, d := range ev.Do {
 					if e.reachGhost[f] == nil {
 						e.reachGhost[f] = map[string]bool{}
